@@ -345,7 +345,7 @@ def projection(opt):
     return out
 
 
-def make_agraph_island(rng, pop=10):
+def make_agraph_island(rng, pop=10, size=8):
     from bingo.evaluation.evaluation import Evaluation
     from bingo.evolutionary_algorithms.age_fitness import AgeFitnessEA
     from bingo.evolutionary_optimizers.island import Island
@@ -360,7 +360,7 @@ def make_agraph_island(rng, pop=10):
     cg = ComponentGenerator(1)
     for op in ("+", "-", "*", "sin"):
         cg.add_operator(op)
-    gen = AGraphGenerator(8, cg)
+    gen = AGraphGenerator(size, cg)
     ea = AgeFitnessEA(Evaluation(ExplicitRegression(training_data=ExplicitTrainingData(x, y))), gen, AGraphCrossover(),
                       AGraphMutation(cg), 0.4, 0.4, pop)
     return Island(ea, gen, pop, hall_of_fame=HallOfFame(3))
@@ -393,10 +393,10 @@ def lossless(ctx, rep):
     from bingo.evolutionary_optimizers.serial_archipelago import SerialArchipelago
     from harness.bingo_util import simple_island
     rng = ctx.rng
-    for t in range(ctx.n(8, 40)):
+    for t in range(ctx.n(10, 40)):
         np.random.seed(rng.randrange(2 ** 31))
         random.seed(rng.randrange(2 ** 31))
-        kind = ["island", "agraph", "arch", "predictor island"][t % 4]
+        kind = ["island", "agraph", "arch", "predictor island", "agraph seeded, never evaluated"][t % 5]
         with warnings.catch_warnings():
             warnings.simplefilter("ignore")
             if kind == "island":
@@ -405,10 +405,21 @@ def lossless(ctx, rep):
                 opt = make_agraph_island(rng)
             elif kind == "predictor island":
                 opt = make_predictor_island(rng)
+            elif kind == "agraph seeded, never evaluated":
+                # a population the user seeded with known equations (literal constants, derived state not yet refreshed), dumped
+                # before the first generation
+                from bingo.symbolic_regression.agraph.agraph import AGraph
+                seeds = ["2.5*X_0 + 1.25", "0.5*X_0 - 3.0", "1.5 + X_0*0.25", "sin(X_0)*1.5 + X_0", "(X_0 + 2.0)*(X_0 - 0.5)"]
+                built = [AGraph(equation=e) for e in seeds]
+                n_rows = max(set(len(b.command_array) for b in built), key=[len(b.command_array) for b in built].count)
+                usable = [e for e, b in zip(seeds, built) if len(b.command_array) == n_rows]
+                opt = make_agraph_island(rng, size=n_rows)      # crossover needs stacks of one size
+                opt.population = [AGraph(equation=rng.choice(usable)) for _ in range(len(opt.population))]
             else:
                 tmpl, _ = simple_island(6)
                 opt = SerialArchipelago(tmpl, num_islands=3)
-            opt.evolve(rng.randrange(1, 4))
+            if kind != "agraph seeded, never evaluated":
+                opt.evolve(rng.randrange(1, 4))
             d = tempfile.mkdtemp(prefix="c13l_")
             try:
                 fn = os.path.join(d, "dump.pkl")
